@@ -102,6 +102,18 @@ func init() {
 		}
 		end := &wire.End{Code: code.code, CodeStr: code.str, Message: msg, Details: det}
 		call := &mxCall{Base: b, ReqMsgs: req, RespMsgs: resp[:min(pos, len(resp))], End: end, TrailersOnly: pos == 0, Lenient: true}
+		if tp == vanguard.ProtocolGRPCWeb {
+			// the status travels in a trailer frame (not in the head) in one of the legal spellings of a header line
+			if sp := c.Choose("trailer-frame-spelling", 5); sp > 0 {
+				call.TrailersOnly = false
+				call.Mutate = func(sr *wire.ServerResp, rep *world.Reply) {
+					if sr != nil {
+						sr.TrailerSpelling = sp - 1
+					}
+				}
+				c.Attr("~trailer-frame", []string{"k: v", "k:v", "k:  v  ", "k:<TAB>v"}[sp-1])
+			}
+		}
 		obs := call.run()
 		if obs.Err != nil {
 			c.Fail("harness.setup", "%v", obs.Err)
